@@ -475,6 +475,9 @@ def drv_reassign(ctx, k, rng):
     label, ctor, va, vb, use = cases[k % len(cases)]
     used_first = bool(rng.random() < 0.5)
     obj = ctor(**va)
+    if not all(hasattr(obj, n_) for n_ in vb):
+        ctx.unsupported("history.parameters_reassigned")  # (the parameter is not kept as a public attribute of that name)
+        return
     with torch.no_grad():
         if used_first:
             use(obj)
